@@ -211,6 +211,24 @@ def attempt(ctx, data, pk, tmp, fmt, label, h):
         wf = f'inspecting the loaded model raised {type(e).__name__}'
     if wf:
         ctx.violate({'clause': 'loaded-not-wellformed', 'format': fmt}, f'a {label} {fmt} document loaded into an ill-formed model: {wf}', rep)
+    else:
+        # the documents refer to nothing outside themselves: neither does what they load into (an earlier, failed load
+        # must not lend its objects to this one)
+        try:
+            inside, todo = set(), list(res.contents)
+            while todo:
+                o = todo.pop()
+                inside.add(id(o))
+                todo += list(o.eContents)
+            stray = next((f'{o.eClass.name}.{f.name}' for r in res.contents for o in [r] + list(r.eAllContents())
+                          for f in o.eClass.eAllReferences()
+                          for v in (list(o.eGet(f)) if f.many else ([o.eGet(f)] if o.eGet(f) is not None else []))
+                          if not hasattr(v, '_proxy_path') and id(v) not in inside), None)
+        except Exception as e:
+            stray = None
+        if stray:
+            ctx.violate({'clause': 'loaded-points-outside', 'format': fmt},
+                        f'a {label} {fmt} document loaded into a model whose {stray} holds an object that is not part of it', rep)
     again = rset.get_resource(URI(path))
     if again is not res:
         ctx.violate({'clause': 'not-idempotent', 'format': fmt}, f'asking twice for the same URI returned two resources', rep)
@@ -349,6 +367,7 @@ def run_case(ctx, h, tmp, nprefix, ncorr):
         attempt(ctx, bad, pk, tmp, fmt, 'corrupted', h)
     for bad in cycle_requests(rng, doc, fmt, pk, 2):
         attempt(ctx, bad, pk, tmp, fmt, 'containment-cycle-request', h)
+    attempt(ctx, doc, pk, tmp, fmt, 'valid-after-the-failures', h)
     if h < 2:
         ctx.sample({'case': h, 'format': fmt, 'bytes': len(doc), 'document_head': doc.decode('utf-8')[:300]})
 
